@@ -40,16 +40,25 @@ def _session(req):
 
     from sim import ipc
 
+    import time
+
+    t0 = time.time()
     prof = profile(req["property"])
     spec = prof.generate(req["run_seed"], req.get("tier", "quick"))
+    t1 = time.time()
     if spec is None:
         return {"verdict": "skip", "detail": "generator produced nothing", "spec": None}
     spec["hash_seed"] = req["hash_seed"]
     spec["run_seed"] = req["run_seed"]
-    res = ipc.call(
-        req["hash_seed"],
-        {"cmd": "exec", "property": req["property"], "spec": spec, "stderr_path": req.get("stderr_path")},
-        timeout=max(5.0, float(req.get("cap_s", 120)) - 3.0),
-    )
+    try:
+        res = ipc.call(
+            req["hash_seed"],
+            {"cmd": "exec", "property": req["property"], "spec": spec, "stderr_path": req.get("stderr_path")},
+            timeout=max(5.0, float(req.get("cap_s", 120)) - 3.0),
+        )
+    except ipc.PristineError as e:
+        # the executing child was lost (CPU budget / wall backstop): the driver classifies from its stack dump
+        res = {"verdict": "child_lost", "detail": str(e)}
     res["spec"] = spec
+    res["wall_s"] = {"generate": round(t1 - t0, 2), "execute": round(time.time() - t1, 2)}
     return res
